@@ -183,7 +183,11 @@ func BuildCase(name, scenario string, com Committee, seed int64) *Case {
 				if s.Rng.Intn(4) == 0 {
 					i := i
 					at, dur := s.Rng.Int63n(3000), 200+s.Rng.Int63n(1500)
-					s.At(at, func() { s.Replicas[i].Paused = true })
+					s.At(at, func() {
+						if s.HealedAt == 0 { // no new faults after GST
+							s.Replicas[i].Paused = true
+						}
+					})
 					s.At(at+dur, func() { s.Resume(i) })
 				}
 			}
